@@ -239,7 +239,7 @@ WAVE_FAMILY = {0: _WAVE, 1: _WAVE}
 def merge_case_st(draw):
     sc = draw(scen.scenario_st(MERGE_SHAPES, measure="maybe", min_valid=2, max_valid=5,
                                stats=["mean", "sum"], allow_order_key=False,
-                               weight_kinds=("none", "int", "dyadic", "tenths")))
+                               weight_kinds=("none", "int", "dyadic")))
     sv, q = sc["survey"], sc["query"]
     cands = []
     for k, d in enumerate(q["dims"]):
